@@ -208,6 +208,36 @@ pub fn run(ctx: &mut Ctx) {
             }
         }
     }
+    // size probes: a marker at every position class of a long computed collection / operand list
+    for n in al::size_classes(ctx.tier_thorough) {
+        if n > 300 {
+            continue;
+        }
+        if !ctx.mine() {
+            continue;
+        }
+        for k in [0usize, 1, n / 2, n - 1] {
+            for marker in [json!({"log": "LEAK"}), json!({"var": "s"}), json!({"+": ["x"]})] {
+                ctx.edge();
+                let coll: Vec<Value> = (0..n).map(|i| if i == k { marker.clone() } else { json!(i + 1) }).collect();
+                let dd = json!({"coll": coll, "s": "SECRET"});
+                for r in [
+                    json!({"all": [{"var": "coll"}, true]}), json!({"some": [{"var": "coll"}, false]}), json!({"none": [{"var": "coll"}, {"var": "nope"}]}),
+                    json!({"map": [{"var": "coll"}, {"var": ""}]}), json!({"filter": [{"var": "coll"}, true]}),
+                    json!({"reduce": [{"var": "coll"}, {"var": "current"}, 0]}), json!({"merge": [{"var": "coll"}, {"var": "coll"}]}),
+                    json!({"in": [0, {"var": "coll"}]}), json!({"missing": {"filter": [{"var": "coll"}, {"===": [{"var": ""}, 1]}]}}),
+                    json!({"var": format!("coll.{}", k)}), json!({"var": ["nope", {"var": format!("coll.{}", k)}]}),
+                ] {
+                    ctx.check("size-probe:marker-in-long-collection", &r, &dd);
+                }
+                // long eager operand lists fed from data
+                let args: Vec<Value> = (0..n).map(|i| json!({"var": format!("coll.{}", i)})).collect();
+                ctx.check("size-probe:merge-operands", &op("merge", args.clone()), &dd);
+                ctx.check("size-probe:cat-operands", &op("cat", args.clone()), &dd);
+                ctx.check("size-probe:or-operands", &op("or", args.iter().map(|a| json!({"!": [a]})).collect()), &dd);
+            }
+        }
+    }
     // tracer rules
     for k in OPS {
         for n in 0..=4usize {
